@@ -748,6 +748,10 @@ theorem applyEv_spec (who : Nat → Caller) (cr : Nat → Bool) (r r' : Replay) 
     simp only [applyEv] at he
     obtain ⟨x, y, z, w⟩ := settle_spec who cr _ _ _ h he
     exact ⟨x, y, by simp [frameAddrs, z], by simp [getAddrs, w]⟩
+  | timedOut a =>
+    simp only [applyEv] at he
+    obtain ⟨x, y, z, w⟩ := settle_spec who cr _ _ _ h he
+    exact ⟨x, y, by simp [frameAddrs, z], by simp [getAddrs, w]⟩
 
 /-- the events applied one after the other; `none` = not accepted -/
 def runEvs (who : Nat → Caller) (cr : Nat → Bool) : Replay → List Ev → Option Replay
